@@ -793,6 +793,26 @@ func (w *World) Observe(v Viewer) string {
 // ObserveIter is Observe for an explicit iterator (snapshots keep their Iter).
 func ObserveIter(v Viewer, it fox.Iter, methods, universe, prefixes []string) string {
 	var sb strings.Builder
+	// a consumer may leave any iterator after the first result: whatever the iterator borrowed is given back once,
+	// and the full walks below see the same state as if nobody had done so
+	if len(universe) > 0 {
+		h0, p0 := instantiate(universe[0])
+		for range it.All() {
+			break
+		}
+		for range it.Methods() {
+			break
+		}
+		for range it.Prefix(seq(methods...), "") {
+			break
+		}
+		for range it.Routes(seq(methods...), universe[0]) {
+			break
+		}
+		for range it.Reverse(seq(methods...), h0, p0) {
+			break
+		}
+	}
 	var ms []string
 	for m := range it.Methods() {
 		ms = append(ms, m)
